@@ -573,6 +573,7 @@ pub struct LineBuf {
 
 	pub last_selection: Option<SelectRange>,
 	pub last_pattern_search: Option<Regex>,
+	pub last_search_rev: bool, // The last '/' or '?' search went backwards
 	pub last_substitution: Option<(Regex,String,SubFlags)>,
 	pub last_global: Option<Verb>,
 
@@ -2351,6 +2352,37 @@ impl LineBuf {
 			}
 		}
 	}
+	/// The byte offsets at which `regex` matches, in the order a search starting at the cursor visits
+	/// them: forward, the matches that start after the cursor (nearest first), then, wrapping around,
+	/// the ones that start at or before it; backward, the mirror image. Also returns how many of them
+	/// lie in the search direction, i.e. are reached without wrapping.
+	///
+	/// A match is looked for at every character position, not only after the end of the previous
+	/// match, so a match that overlaps an earlier one is still found.
+	pub fn search_order(&self, regex: &Regex, forward: bool) -> (Vec<usize>,usize) {
+		let haystack = self.buffer.as_str();
+		let cursor = self.read_cursor_byte_pos();
+		let mut starts = vec![];
+		let mut from = 0;
+		while from <= haystack.len() {
+			let Some(mat) = regex.find_at(haystack, from) else { break };
+			starts.push(mat.start());
+			from = mat.start() + haystack[mat.start()..].chars().next().map_or(1, |ch| ch.len_utf8());
+		}
+		if forward {
+			let (mut after, mut upto): (Vec<usize>,Vec<usize>) = starts.into_iter().partition(|s| *s > cursor);
+			let in_direction = after.len();
+			after.append(&mut upto);
+			(after, in_direction)
+		} else {
+			let (mut before, mut from_cursor): (Vec<usize>,Vec<usize>) = starts.into_iter().partition(|s| *s < cursor);
+			let in_direction = before.len();
+			before.reverse();
+			from_cursor.reverse();
+			before.append(&mut from_cursor);
+			(before, in_direction)
+		}
+	}
 	pub fn should_handle_block_insert(&self) -> bool {
 		self.inserting_from_visual &&
 		self.last_selection.as_ref().is_some_and(|sel| matches!(sel, SelectRange::TwoDim(_)))
@@ -2708,91 +2740,35 @@ impl LineBuf {
 				}
 				MotionKind::On(target.get())
 			}
+			MotionCmd(count, Motion::PrevMatch) |
 			MotionCmd(count, Motion::NextMatch) => {
-				let Some(regex) = self.last_pattern_search.as_ref() else {
+				let Some(regex) = self.last_pattern_search.clone() else {
 					return MotionKind::Null
 				};
-				let haystack = self.buffer.as_str();
-				let matches = regex.find_iter(haystack).collect::<Vec<_>>();
-				let wrap_match: Option<&regex::Match> = matches.first();
-				let cursor_byte_pos = self.read_cursor_byte_pos();
-				let mut fwd_matches = 0;
-				for mat in &matches {
-					if mat.start() > cursor_byte_pos {
-						fwd_matches += 1;
-						if fwd_matches == count {
-							let Some(match_idx) = self.find_index_for_byte_pos(mat.start()) else { return MotionKind::Null };
-							return MotionKind::On(match_idx)
-						}
-					}
+				// 'n' goes in the direction of the last search, 'N' in the opposite one
+				let forward = matches!(motion.1, Motion::NextMatch) != self.last_search_rev;
+				let (order, in_direction) = self.search_order(&regex, forward);
+				if order.is_empty() { return MotionKind::Null }
+				let nth = count.saturating_sub(1) % order.len();
+				let Some(match_idx) = self.find_index_for_byte_pos(order[nth]) else { return MotionKind::Null };
+				if count.saturating_sub(1) < in_direction {
+					MotionKind::On(match_idx)
+				} else {
+					// wrapped around the end of the buffer
+					MotionKind::Onto(match_idx)
 				}
-				let Some(mat) = wrap_match else { return MotionKind::Null };
-				let Some(match_idx) = self.find_index_for_byte_pos(mat.start()) else { return MotionKind::Null };
-				MotionKind::Onto(match_idx)
 			}
-			MotionCmd(count, Motion::PrevMatch) => {
-				let Some(regex) = self.last_pattern_search.as_ref() else {
-					return MotionKind::Null
-				};
-				let haystack = self.read_slice_to_cursor().unwrap();
-				let matches = regex
-					.find_iter(haystack)
-					.collect::<Vec<_>>()
-					.into_iter()
-					.rev()
-					.collect::<Vec<_>>(); // I'm gonna be sick
-				let wrap_match: Option<&regex::Match> = matches.last();
-				let cursor_byte_pos = self.read_cursor_byte_pos();
-				let mut bkwd_matches = 0;
-				for mat in &matches {
-					if mat.start() < cursor_byte_pos {
-						bkwd_matches += 1;
-						if bkwd_matches == count {
-							let Some(match_idx) = self.find_index_for_byte_pos(mat.start()) else { return MotionKind::Null };
-							return MotionKind::On(match_idx)
-						}
-					}
-				}
-				let Some(mat) = wrap_match else { return MotionKind::Null };
-				let Some(match_idx) = self.find_index_for_byte_pos(mat.start()) else { return MotionKind::Null };
-				MotionKind::Onto(match_idx)
-			}
-			MotionCmd(_count, Motion::PatternSearchRev(ref pat)) |
-			MotionCmd(_count, Motion::PatternSearch(ref pat)) => {
+			MotionCmd(count, Motion::PatternSearchRev(ref pat)) |
+			MotionCmd(count, Motion::PatternSearch(ref pat)) => {
 				match Regex::new(pat) {
 					Ok(regex) => {
+						let forward = matches!(motion.1, Motion::PatternSearch(_));
 						self.last_pattern_search = Some(regex.clone());
-						let haystack = self.buffer.as_str();
-						let matches = regex.find_iter(haystack).collect::<Vec<_>>();
-						// We will use this match if we don't find any in our desired direction, just like vim
-						let wrap_match: Option<&regex::Match> = match &motion.1 {
-							Motion::PatternSearch(_) => matches.first(),
-							Motion::PatternSearchRev(_) => matches.last(),
-							_ => unreachable!()
-						};
-						let cursor_byte_pos = self.read_cursor_byte_pos();
-						match &motion.1 {
-							Motion::PatternSearch(_) => {
-								for mat in &matches {
-									if mat.start() > cursor_byte_pos {
-										let Some(match_idx) = self.find_index_for_byte_pos(mat.start()) else { return MotionKind::Null };
-										return MotionKind::Onto(match_idx)
-									}
-								}
-							}
-							Motion::PatternSearchRev(_) => {
-								let matches = matches.iter().rev();
-								for mat in matches {
-									if mat.start() < cursor_byte_pos {
-										let Some(match_idx) = self.find_index_for_byte_pos(mat.start()) else { return MotionKind::Null };
-										return MotionKind::Onto(match_idx)
-									}
-								}
-							}
-							_ => unreachable!()
-						}
-						let Some(mat) = wrap_match else { return MotionKind::Null };
-						let Some(match_idx) = self.find_index_for_byte_pos(mat.start()) else { return MotionKind::Null };
+						self.last_search_rev = !forward;
+						let (order, _) = self.search_order(&regex, forward);
+						if order.is_empty() { return MotionKind::Null }
+						let nth = count.saturating_sub(1) % order.len();
+						let Some(match_idx) = self.find_index_for_byte_pos(order[nth]) else { return MotionKind::Null };
 						MotionKind::Onto(match_idx)
 					}
 					Err(e) => {
